@@ -79,3 +79,87 @@ Theorem C05_percentage_resolution (v r : Q) (refer : val) :
     (fun _ res => exists x, res = Some (VNum x) /\ x == r * v / 100) (fun _ => False).
 Proof. exact (C05_percentage.percentage_spec v r refer). Qed.
 Print Assumptions C05_percentage_resolution.
+
+(* ---- source: more of layout/percent.py under the translator tie (regenerated on every run).
+   adjust_box_sizing(box, axis), specialised by constant propagation to its two call sites axis='width' / 'height'
+   (gen/GenBoxSizing.v), equals the hand model [adjust] on the three sizes of the axis and changes nothing else ... *)
+Require WV.gen.GenBoxSizing WV.model.C05BoxSizing WV.proofs.C05_gen_box_sizing.
+Theorem C05_source_adjust_box_sizing_width s srest pl pr pt pb bl br bt bb w mn mx h mnh mxh rest :
+  let bsbox := C05BoxSizing.bsbox in let vo := C05BoxSizing.vo in
+  run real_ops GenBoxSizing.adjust_box_sizing_width_body
+    [("box", bsbox (VStr (C05BoxSizing.sizing_kw s)) srest (VNum pl) (VNum pr) (VNum pt) (VNum pb) (VNum bl) (VNum br)
+                   (VNum bt) (VNum bb) (vo w) (vo mn) (VNum mx) h mnh mxh rest)]
+    (fun rho res => res = None /\ exists w' mn' mx',
+       lookup "box" rho = bsbox (VStr (C05BoxSizing.sizing_kw s)) srest (VNum pl) (VNum pr) (VNum pt) (VNum pb) (VNum bl)
+                                (VNum br) (VNum bt) (VNum bb) w' mn' mx' h mnh mxh rest /\
+       let z' := C05BoxSizing.adjust s (C05BoxSizing.mkEdges pl pr bl br) (C05BoxSizing.mkSizes w mn mx) in
+       C05BoxSizing.rep w' (C05BoxSizing.sz z') /\ C05BoxSizing.rep mn' (C05BoxSizing.sz_min z') /\
+       C05BoxSizing.repq mx' (C05BoxSizing.sz_max z'))
+    (fun _ => False).
+Proof. exact (C05_gen_box_sizing.adjust_box_sizing_width_is_model s srest pl pr pt pb bl br bt bb w mn mx h mnh mxh rest). Qed.
+Print Assumptions C05_source_adjust_box_sizing_width.
+
+Theorem C05_source_adjust_box_sizing_height s srest pl pr pt pb bl br bt bb w mnw mxw h mn mx rest :
+  let bsbox := C05BoxSizing.bsbox in let vo := C05BoxSizing.vo in
+  run real_ops GenBoxSizing.adjust_box_sizing_height_body
+    [("box", bsbox (VStr (C05BoxSizing.sizing_kw s)) srest (VNum pl) (VNum pr) (VNum pt) (VNum pb) (VNum bl) (VNum br)
+                   (VNum bt) (VNum bb) w mnw mxw (vo h) (vo mn) (VNum mx) rest)]
+    (fun rho res => res = None /\ exists h' mn' mx',
+       lookup "box" rho = bsbox (VStr (C05BoxSizing.sizing_kw s)) srest (VNum pl) (VNum pr) (VNum pt) (VNum pb) (VNum bl)
+                                (VNum br) (VNum bt) (VNum bb) w mnw mxw h' mn' mx' rest /\
+       let z' := C05BoxSizing.adjust s (C05BoxSizing.mkEdges pt pb bt bb) (C05BoxSizing.mkSizes h mn mx) in
+       C05BoxSizing.rep h' (C05BoxSizing.sz z') /\ C05BoxSizing.rep mn' (C05BoxSizing.sz_min z') /\
+       C05BoxSizing.repq mx' (C05BoxSizing.sz_max z'))
+    (fun _ => False).
+Proof. exact (C05_gen_box_sizing.adjust_box_sizing_height_is_model s srest pl pr pt pb bl br bt bb w mnw mxw h mn mx rest). Qed.
+Print Assumptions C05_source_adjust_box_sizing_height.
+
+(* ... and the clause "box-sizing only changes which box the declared size measures", about the regenerated text:
+   with non-negative paddings and borders, each declared size d >= 0 of the axis becomes the content size c such that
+   the box named by box-sizing ([extent]: content, padding or border box) measures d, c floored at 0 when the
+   paddings / borders alone exceed d; 'auto' stays 'auto'; every other entry of the box is unchanged *)
+Theorem C05_source_box_sizing_measures_declared_width s srest pl pr pt pb bl br bt bb w mn mx h mnh mxh rest :
+  (0 <= pl -> 0 <= pr -> 0 <= bl -> 0 <= br ->
+  let bsbox := C05BoxSizing.bsbox in let vo := C05BoxSizing.vo in
+  run real_ops GenBoxSizing.adjust_box_sizing_width_body
+    [("box", bsbox (VStr (C05BoxSizing.sizing_kw s)) srest (VNum pl) (VNum pr) (VNum pt) (VNum pb) (VNum bl) (VNum br)
+                   (VNum bt) (VNum bb) (vo w) (vo mn) (VNum mx) h mnh mxh rest)]
+    (fun rho res => res = None /\ exists z',
+       lookup "box" rho = bsbox (VStr (C05BoxSizing.sizing_kw s)) srest (VNum pl) (VNum pr) (VNum pt) (VNum pb) (VNum bl)
+                                (VNum br) (VNum bt) (VNum bb) (vo (C05BoxSizing.sz z')) (vo (C05BoxSizing.sz_min z'))
+                                (VNum (C05BoxSizing.sz_max z')) h mnh mxh rest /\
+       C05BoxSizing.adjust_spec s (C05BoxSizing.mkEdges pl pr bl br) (C05BoxSizing.mkSizes w mn mx) z')
+    (fun _ => False))%Q.
+Proof. exact (C05_gen_box_sizing.box_sizing_measures_declared_width s srest pl pr pt pb bl br bt bb w mn mx h mnh mxh rest). Qed.
+Print Assumptions C05_source_box_sizing_measures_declared_width.
+
+Theorem C05_source_box_sizing_measures_declared_height s srest pl pr pt pb bl br bt bb w mnw mxw h mn mx rest :
+  (0 <= pt -> 0 <= pb -> 0 <= bt -> 0 <= bb ->
+  let bsbox := C05BoxSizing.bsbox in let vo := C05BoxSizing.vo in
+  run real_ops GenBoxSizing.adjust_box_sizing_height_body
+    [("box", bsbox (VStr (C05BoxSizing.sizing_kw s)) srest (VNum pl) (VNum pr) (VNum pt) (VNum pb) (VNum bl) (VNum br)
+                   (VNum bt) (VNum bb) w mnw mxw (vo h) (vo mn) (VNum mx) rest)]
+    (fun rho res => res = None /\ exists z',
+       lookup "box" rho = bsbox (VStr (C05BoxSizing.sizing_kw s)) srest (VNum pl) (VNum pr) (VNum pt) (VNum pb) (VNum bl)
+                                (VNum br) (VNum bt) (VNum bb) w mnw mxw (vo (C05BoxSizing.sz z'))
+                                (vo (C05BoxSizing.sz_min z')) (VNum (C05BoxSizing.sz_max z')) rest /\
+       C05BoxSizing.adjust_spec s (C05BoxSizing.mkEdges pt pb bt bb) (C05BoxSizing.mkSizes h mn mx) z')
+    (fun _ => False))%Q.
+Proof. exact (C05_gen_box_sizing.box_sizing_measures_declared_height s srest pl pr pt pb bl br bt bb w mnw mxw h mn mx rest). Qed.
+Print Assumptions C05_source_box_sizing_measures_declared_height.
+
+(* what [adjust_spec] says, unfolded once (the specification is written from the property text, not from the code) *)
+Theorem C05_box_sizing_spec_reading s e d c :
+  C05BoxSizing.measures s e d c <->
+  ((C05BoxSizing.extent s e 0 <= d -> C05BoxSizing.extent s e c == d) /\ (~ C05BoxSizing.extent s e 0 <= d -> c == 0))%Q.
+Proof. unfold C05BoxSizing.measures. tauto. Qed.
+Print Assumptions C05_box_sizing_spec_reading.
+
+(* any other box-sizing keyword trips the assert *)
+Theorem C05_source_adjust_box_sizing_bad_keyword (kw : string) srest pl pr pt pb bl br bt bb w mnw mxw h mnh mxh rest :
+  C05BoxSizing.sizing_of kw = None ->
+  let box := C05BoxSizing.bsbox (VStr kw) srest pl pr pt pb bl br bt bb w mnw mxw h mnh mxh rest in
+  run real_ops GenBoxSizing.adjust_box_sizing_width_body [("box", box)] (fun _ _ => False) (fun m => m = "AssertionError") /\
+  run real_ops GenBoxSizing.adjust_box_sizing_height_body [("box", box)] (fun _ _ => False) (fun m => m = "AssertionError").
+Proof. exact (C05_gen_box_sizing.gen_adjust_bad_keyword real_ops kw srest pl pr pt pb bl br bt bb w mnw mxw h mnh mxh rest). Qed.
+Print Assumptions C05_source_adjust_box_sizing_bad_keyword.
